@@ -8,6 +8,7 @@ import Pastel.Lemmas.ScaleMap
 import Pastel.Lemmas.Gradient
 import Pastel.RealInst
 import Pastel.Props.C05
+import Pastel.Model.CliRun
 
 namespace Pastel.C08
 open Pastel Sc ScOrd
@@ -343,6 +344,52 @@ theorem gradient_first_last (cs : List C) (hk : 2 ≤ cs.length) (N : Nat) (hN :
     rw [this]
 
 end gradient
+
+section clirun
+open Pastel.Cli
+
+/-- **`pastel gradient -n N c₁ … c_k` prints exactly `N` lines and succeeds** whenever `N ≥ 2` is a
+readable count, there are at least two colour arguments and every one of them can be read (as an
+argument or, for `-`, from stdin) — in every colour space; and it prints nothing at all when the
+count is unreadable or below 2, when there are fewer than two colours, or when a colour cannot
+be read (validation comes first). -/
+theorem gradient_cli (n sp : String) (texts : List String) (stdin : List StdinLine) :
+    (∀ count cs, parseUsize n.toList = some count → 2 ≤ count → 2 ≤ texts.length →
+        collectArgs texts stdin = .ok cs →
+        (run "gradient" [n, sp] texts stdin).lines.length = count ∧ (run "gradient" [n, sp] texts stdin).err = none) ∧
+    (parseUsize n.toList = none → run "gradient" [n, sp] texts stdin = fail (.couldNotParseNumber n)) ∧
+    (∀ count, parseUsize n.toList = some count → count < 2 → run "gradient" [n, sp] texts stdin = fail .gradientNumber) ∧
+    (∀ count, parseUsize n.toList = some count → 2 ≤ count → texts.length < 2 →
+        run "gradient" [n, sp] texts stdin = fail .gradientColorCount) ∧
+    (∀ count e, parseUsize n.toList = some count → 2 ≤ count → 2 ≤ texts.length →
+        collectArgs texts stdin = .error e → run "gradient" [n, sp] texts stdin = fail e) := by
+  have hrun : run "gradient" [n, sp] texts stdin = runGradient [n, sp] texts stdin := by
+    unfold run
+    simp only [show ("gradient" = "mix") = False by decide, show ("gradient" = "gray") = False by decide, if_false, if_true]
+  rw [hrun]
+  refine ⟨?_, ?_, ?_, ?_, ?_⟩
+  · intro count cs hp h2 hk hc
+    unfold runGradient
+    simp only [hp, hc]
+    rw [if_neg (by omega), if_neg (by omega)]
+    simp [gradient]
+  · intro hp
+    unfold runGradient
+    simp only [hp]
+  · intro count hp h2
+    unfold runGradient
+    simp only [hp]
+    rw [if_pos h2]
+  · intro count hp h2 hk
+    unfold runGradient
+    simp only [hp]
+    rw [if_neg (by omega), if_pos hk]
+  · intro count e hp h2 hk hc
+    unfold runGradient
+    simp only [hp, hc]
+    rw [if_neg (by omega), if_neg (by omega)]
+
+end clirun
 
 /-- The same invariant for IEEE float positions. -/
 theorem float_reachable_sorted {C : Type} (ops : List (C × Float)) :
